@@ -95,7 +95,7 @@ def gen_cases(rng, tier):
     for i in range(30 if tier == 'quick' else 600):
         T = rng.choice([30, 100])
         variant = rng.choice(['one-shot', 'one-shot-press', 'one-shot-release', 'one-shot-press-pcancel', 'one-shot-release-pcancel'])
-        cfg = '(defsrc a s d)\n(deflayer l0 (%s %d lsft) b c)' % (variant, T)
+        cfg = '(defcfg rapid-event-delay %d)\n(defsrc a s d)\n(deflayer l0 (%s %d lsft) b c)' % (rng.choice([0, 0, 1, 5]), variant, T)
         h = ['t3', 'd30', 't%d' % rng.choice([5, T - 1, T + 1, T + 40, 3 * T]), 'q', 'u30', 't%d' % rng.choice([1, T // 2, T - 1, T + 1, T + 30]), 'q',
              'd31', 't5', 'u31', 't%d' % rng.choice([5, T + 20]), 'q', 'd32', 't3', 'u32', 't%d' % (T + 50), 'q']
         c = {'id': 'c07-osh-%d' % i, 'cfg': cfg, 'hist': h, 'sub': 'ksim', 'tags': {'kind': 'one-shot-held'}}
